@@ -6,7 +6,7 @@ from fractions import Fraction
 
 from ..absint import Interp, ObjV
 from ..forms import Const, Form, TupleV, fpow, mk_fn, is_real_form
-from ..rules import PI, S, body_nodes
+from ..rules import PI, S, body_nodes, check_late_binding
 from ..srcmodel import src_of
 from . import c08
 
@@ -153,6 +153,7 @@ def rule_fiber(ctx, E_dm):
 def run(ctx):
     E = rule_dm(ctx)
     rule_fiber(ctx, E)
+    check_late_binding(ctx, "C07.6", ["devices.DM", "devices.FIBER"])
     ctx.require_min("C07.1", 2)
     ctx.require_min("C07.3", 4)
     ctx.require_min("C07.4", 1)
